@@ -437,17 +437,26 @@ def legacy_shutdown(vc):
 
 @harness('C45', 'HostConnectionPool._add_conn_if_under_max', functions=[HP + '_add_conn_if_under_max'])
 def legacy_add(vc):
-    """ensures, with shutdown() injected while the legacy pool opens an additional connection (or before, or never): once both have
-    finished no connection the pool opened is left open on a shut-down pool"""
+    """ensures, with shutdown() injected while the legacy pool opens an additional connection or while that connection selects the keyspace (the two
+    blocking calls), or before, or never: once both have finished no connection the pool opened is left open on a shut-down pool"""
     w = P.World(vc)
     c0 = P.Conn(w, 'c0')
     pool, lock = _legacy_pool(vc, w, [c0])
-    when = vc.choice('shutdown', ['never', 'while-opening', 'before'])
+    when = vc.choice('shutdown', ['never', 'while-opening', 'while-selecting-the-keyspace', 'before'])
     sd = lambda: call_value(vc.ctx, BoundMethod(resolve(HP + 'shutdown'), pool), [], {})
     if when == 'before':
         sd()
     elif when == 'while-opening':
         w.factory_hook = sd
+    elif when == 'while-selecting-the-keyspace':
+        # the second blocking call: the USE round trip on the new connection (the session has a keyspace selected)
+        pool.attrs['_session'].keyspace = 'ks'
+
+        class Selecting(P.Conn):
+            def set_keyspace_blocking(self_, ks):
+                sd()
+                self_.keyspace = ks
+        w.conn_class = Selecting
     vc.stub('time.time', lambda: 0.0)
     r = vc.call(HP + '_add_conn_if_under_max', pool)
     new = [c for c in w.opened if c is not c0]
